@@ -40,6 +40,9 @@ class SubProcess(zope.testrunner.feature.Feature):
     def report(self):
         sys.stdout.close()
         # Communicate with the parent.  The protocol is obvious:
+        if self.runner.skipped:
+            print('skipped', len(self.runner.skipped),
+                  file=self.original_stderr)
         print(self.runner.ran,
               len(self.runner.failures), len(self.runner.errors),
               file=self.original_stderr)
